@@ -99,11 +99,12 @@ def run(ctx):
             for m in (1, 2, 3, 4):
                 vout = rnd.choice([0.5, 1.0, 2.0, -1.5])
                 bias = rnd.choice([0.0, 0.25, -1.0])
-                bits = [0, 0, 0, 0, 1, 0, 0, 0, 0]
+                # an isolated 1, alone or followed (six empty slots later) by a run of ones elsewhere in the same record
+                bits = [0, 0, 0, 0, 1, 0, 0, 0, 0] + ([0, 0, 1, 1, 1, 0, 0, 0, 0, 1, 1] if (m + Tw) % 2 else [])
                 with deadline(60):
                     w = DAC(bits, bias, vout, "gaussian", T=Tw, m=m) if Tw != sps else DAC(bits, bias, vout, "gaussian", m=m)      # default width T = sps
                     s = SAMPLER(w, sps // 2)
-                y = np.abs(np.asarray(w.signal) - bias)          # pulse magnitude above the bias
+                y = np.abs(np.asarray(w.signal) - bias)[:9 * sps]          # pulse magnitude above the bias, around the isolated 1
                 i = int(np.argmax(y))
                 h = y[i] / 2
                 l = i
@@ -118,9 +119,9 @@ def run(ctx):
                 sv = np.asarray(s.signal).real
                 rx = [int(v > bias + vout / 2) if vout > 0 else int(v < bias + vout / 2) for v in sv]
                 events.append({"kind": "gauss", "sps": sps, "T": Tw, "m": m, "idx": i - 4 * sps, "peakppm": int(round(y[i] / abs(vout) * 1e6)),
-                               "fwhm": int(round((right - left) * 1000)), "len": int(w.len()), "nbits": len(bits), "rxbits": rx, "bits": bits})
+                               "fwhm": int(round((right - left) * 1000)), "len": int(w.len()), "nbits": len(bits), "rxbits": rx[:9], "bits": bits[:9]})
                 meta.append(("gauss", sps, Tw, m))
-                ctx.case(("gauss", sps % 2, sps > 16, Tw * 2 // sps, m), {"DAC-gaussian": {"sps": sps, "T": Tw, "m": m, "Vout": vout, "bias": bias}})
+                ctx.case(("gauss", sps % 2, sps > 16, Tw * 2 // sps, m, len(bits) > 9), {"DAC-gaussian": {"sps": sps, "T": Tw, "m": m, "Vout": vout, "bias": bias}})
     # ---- DAC(..., BW=B) is the low-pass filtered waveform (system behaviour beyond the listed clauses)
     from opticomlib.devices import LPF
     for it in range(10 if T else 4):
